@@ -271,6 +271,7 @@ def check(ctx):
             o.fail(P, f'Buffer.{what}', f'return {want}', f'{what} reports `{got}` instead of the stored quantity', file=c.mod.path, line=c.node.lineno)
         else:
             o.witness(what)
+    obs.append(dv.falsy_default_obligation(ctx, 'C05.8', ['Buffer'], 'the capacity and the minimum delay of a buffer are the numbers it was given'))
     return obs
 
 
@@ -354,7 +355,8 @@ def level_pairing(ctx, c, o):
             return 'e' + st.fields['#hid']
         if isinstance(e, ast.Call) and call_attr(e) == '_get_part_count' and e.args:
             v = an.ev(e.args[0], st, frame)
-            return 'c:' + v
+            # a count taken after the head was handed over is a different number: the receiver may have unpacked the batch in place
+            return ('c-after-hand-over:' if str(st.fields.get('#it', 'idle')).startswith('H:') else 'c:') + v
         return NotImplemented
 
     def level_delta(an, n, before):
@@ -419,7 +421,7 @@ def level_pairing(ctx, c, o):
                 else:
                     tok = it.split(':')[1]
                     if sign != '-' or amount != 'c:' + tok or 'D' in it.split(':')[-1]:
-                        st = st.with_flag('BAD:the level is not decreased exactly once by the count of the part that left (the count must be taken from the head before it is removed)')
+                        st = st.with_flag('BAD:the level is not decreased exactly once by the count of the part that left (the count must be taken from the head before it is handed over and removed)')
                     else:
                         it = it + 'D'
         if '#it' in st.fields:
